@@ -171,6 +171,21 @@ def bumpMyId (s : Sa) : Sa := { s with core := { s.core with myId := s.core.myId
 /-- "receiving any kind of message from the peer resets the DPD timer" -/
 def touchDpd (s : Sa) (now : Nat) : Sa := { s with core := { s.core with dpdAt := now + s.core.dpd } }
 
+/-- what `process_message` does with a parsed message before the window is consulted -/
+inductive Gate where
+  | drop          -- ignored: nothing changes
+  | cached        -- answered with the stored response, nothing changes
+  | pass          -- handed to `_process_request` / `_process_response` (after re-arming the liveness timer)
+  deriving DecidableEq, Repr
+
+def gate (s : SaCore) (m : Msg) : Gate :=
+  if m.hdr.isInit = s.isInit then .drop                              -- wrong INITIATOR flag
+  else if s.keyed ∧ m.hdr.exch = 34 then
+    -- cleartext after keys: at most the stored response to a retransmitted IKE_SA_INIT request
+    if ¬ m.hdr.isResp ∧ m.hdr.msgId + 1 = s.peerId then .cached else .drop
+  else if m.hdr.exch ≠ 34 ∧ (m.hdr.spiI, m.hdr.spiR) ≠ (s.spiI, s.spiR) then .drop   -- foreign SPIs
+  else .pass
+
 section shell
 variable {τ : Type} (H : Handlers τ)
 
@@ -254,9 +269,10 @@ def processMessage (t : τ) (s : Sa) (now : Nat) (parsed : Option Msg) : τ × S
   match parsed with
   | none => (t, { sa := s })
   | some m =>
-    if m.hdr.isInit = s.core.isInit then (t, { sa := s })
-    else if m.hdr.exch ≠ 34 ∧ (m.hdr.spiI, m.hdr.spiR) ≠ (s.core.spiI, s.core.spiR) then (t, { sa := s })
-    else if m.hdr.isResp then processResponse H t (touchDpd s now) now m else processRequest H t (touchDpd s now) now m
+    match gate s.core m with
+    | .drop => (t, { sa := s })
+    | .cached => (t, { sa := s, out := s.core.lastResp })
+    | .pass => if m.hdr.isResp then processResponse H t (touchDpd s now) now m else processRequest H t (touchDpd s now) now m
 
 /-- `check_dead_peer_detection_timer` -/
 def checkDpd (t : τ) (s : Sa) (now : Nat) : τ × StepOut :=
